@@ -1,8 +1,91 @@
-/- Driver for C17 (stub). -/
-import ControlModel.Basic
+/- Driver for C17: line = "(kind behaviour (op …))<TAB>implObs"; see harness/props/c17. -/
+import ControlModel.Model.ExecTask
+import ControlModel.Spec.C17
 
 namespace Driver.C17
+open ExecTask
 
-def processLine (_line : String) : String := "UNIMPLEMENTED\t0\t-"
+def resSx : Res → SExp
+  | .ok => .atom "ok" | .none => .atom "none" | .dead => .atom "dead" | .loopexit => .atom "loopexit"
+  | .notask => .atom "notask" | .norpc => .atom "norpc" | .nonhook => .atom "nonhook"
+  | .resp st err => .list [.atom "r", .atom st.name, SExp.ofBool err]
+  | .hresp err => .list [.atom "h", SExp.ofBool err]
+  | .crash s => .list [.atom "crash", .atom s.name]
+  | .hang => .atom "hang"
+
+def emitSx : Emit → SExp
+  | .running => .list [.atom "S", .atom "RUNNING"]
+  | .term f => .list [.atom "S", .atom f.name]
+  | .btt f vol code => .list [.atom "E", .atom f.name, SExp.ofBool vol, SExp.ofInt code]
+
+def obsSx (o : Obs) : SExp :=
+  .list [.list (.atom "res" :: o.res.map resSx), .list (.atom "emits" :: o.emits.map emitSx),
+         .list [.atom "alive", match o.alive with | some b => SExp.ofBool b | none => .atom "-"],
+         .list (.atom "sigs" :: o.sigs.map (fun s => .atom s.name))]
+
+def parseRes : SExp → Option Res
+  | .atom "ok" => some .ok | .atom "none" => some .none | .atom "dead" => some .dead
+  | .atom "loopexit" => some .loopexit | .atom "notask" => some .notask | .atom "norpc" => some .norpc
+  | .atom "nonhook" => some .nonhook | .atom "hang" => some .hang
+  | .list [.atom "r", .atom st, e] => do pure (.resp (← Dev.parse? st) (← e.bool?))
+  | .list [.atom "h", e] => do pure (.hresp (← e.bool?))
+  | .list [.atom "crash", .atom s] => do pure (.crash (← Site.parse? s))
+  | _ => none
+
+def parseEmit : SExp → Option Emit
+  | .list [.atom "S", .atom "RUNNING"] => some .running
+  | .list [.atom "S", .atom f] => do pure (.term (← Fin.parse? f))
+  | .list [.atom "E", .atom f, v, c] => do pure (.btt (← Fin.parse? f) (← v.bool?) (← c.int?))
+  | _ => none
+
+def parseObs : SExp → Option Obs
+  | .list [.list (.atom "res" :: rs), .list (.atom "emits" :: es), .list [.atom "alive", a], .list (.atom "sigs" :: sg)] => do
+    let res ← rs.mapM? parseRes
+    let emits ← es.mapM? parseEmit
+    let alive ← match a with
+      | .atom "-" => some none
+      | x => (x.bool?).map some
+    let sigs ← sg.mapM? (fun x => do Sig.parse? (← x.str?))
+    pure { res := res, emits := emits, alive := alive, sigs := sigs }
+  | _ => none
+
+/-- The known-finding class an input belongs to, chosen by the conjunct of Spec that failed. -/
+def hypOf (k : Kind) (b : Beh) (ops : List Op) (o : Obs) : String :=
+  let nv (P : St → Op → Bool) : Bool := !never P k b ops      -- the schedule meets the class
+  if !noStuck o.res then
+    if k = .nodata then "launch_nil_data_panics"
+    else if launchCrashes k b then "ctl_start_failure_panics"
+    else if nv stopUnreaped then "stop_unreaped_basic_panics"
+    else if nv killNoRpc then "kill_unready_ctl_panics"
+    else if nv stopChannelFull then "stop_signalled_twice_hangs"
+    else if nv killInactive then "kill_inactive_ends_loop"
+    else "-"
+  else if !nothingAfter o.emits then
+    if nv killArmed then "kill_before_running_timer"
+    else if nv killLive then "basic_kill_spares_child"
+    else "-"
+  else if !noSurvivors ops o then
+    if nv killLive then "basic_kill_spares_child"
+    else if nv killHelpers then "ctl_kill_spares_helpers"
+    else "-"
+  else "-"
+
+def processLine (line : String) : String :=
+  match SExp.fields line with
+  | [inp, impl] =>
+    match SExp.parse inp with
+    | some (.list [.atom ks, .atom bs, .list opsx]) =>
+      match Kind.parse? ks, Beh.parse? bs, opsx.mapM? (fun x => do Op.parse? (← x.str?)) with
+      | some k, some b, some ops =>
+        if !validCase k b then "BADINPUT\t0\t-" else
+        let model := obsSx (run k b ops).obs
+        match (SExp.parse impl).bind parseObs with
+        | some o =>
+          let spec := Spec ops o
+          s!"{model}\t{if spec then 1 else 0}\t{if spec then "-" else hypOf k b ops o}"
+        | none => s!"{model}\t0\t-"
+      | _, _, _ => "BADINPUT\t0\t-"
+    | _ => "BADINPUT\t0\t-"
+  | _ => "BADLINE\t0\t-"
 
 end Driver.C17
